@@ -7,6 +7,7 @@
   `ScratchIndepI` (Proofs/ServerAnswerTwoRunI.lean) and `DecodeCongr` (below).
 -/
 import QV.Proofs.ServerSignedPlain
+import QV.Proofs.ServerAnswerTyped
 
 namespace QV.ServerContent
 open QV QV.Wire QV.Reader QV.Writer QV.Server QV.ServerSafety QV.ServerScan QV.ServerAnswer QV.Spec QV.ServerTsig
@@ -176,6 +177,84 @@ def DecodeCongr : Prop :=
     specDecodeMsg b1 = some d1 → specDecodeMsg b2 = some d2 →
     d1.an.map rrKey = d2.an.map rrKey ∧ d1.ns.map rrKey = d2.ns.map rrKey ∧ plainRrs d1.ar = plainRrs d2.ar
 
+/-- **decoder congruence, typed** (proved by the writer side: `decodeCongrT : DecodeCongrT`,
+    Proofs/ServerDecodeCongr.lean, the same statement word for word): `DecodeCongr` with the extra
+    hypothesis that the answer and authority records have 16-bit TYPEs.  `DecodeCongr` itself is false of
+    the model: a record of type 65536 + 2 is written opaque but decoded as type 2, and `Good` does not
+    give typedness. -/
+def DecodeCongrTy : Prop :=
+  ∀ (F1 F2 t0 : State) (bd : Body) (L : Nat) (T : Option Writer.Tsig) (R : Nat) (b1 b2 : Bytes)
+    (m1 m2 : Option (List UInt8)) (d1 d2 : DMsg),
+    Good F1 bd → Good F2 bd → (∀ r ∈ bd.ar, r.ty = 1 ∨ r.ty = 28) → (∀ r ∈ bd.an ++ bd.ns, r.ty < 65536) →
+    modS L T F2 = lift R t0 → Same F1 t0 →
+    Writer.finish F1 Server.macFn = .ok (b1, m1) → Writer.finish F2 Server.macFn = .ok (b2, m2) →
+    specDecodeMsg b1 = some d1 → specDecodeMsg b2 = some d2 →
+    d1.an.map rrKey = d2.an.map rrKey ∧ d1.ns.map rrKey = d2.ns.map rrKey ∧ plainRrs d1.ar = plainRrs d2.ar
+
+theorem specField16_lt (m : Bytes) (p t : Nat) (h : Spec.specField16 m p = some t) : t < 65536 := by
+  unfold Spec.specField16 at h
+  split at h
+  · cases h
+    rename_i a b _ _
+    have := a.toNat_lt; have := b.toNat_lt; omega
+  · cases h
+
+theorem specQuestionAt_qtype_lt (m : Bytes) (p : Nat) (w : List UInt8) (t c nx : Nat)
+    (h : Spec.specQuestionAt m p = some (w, t, c, nx)) : t < 65536 := by
+  unfold Spec.specQuestionAt at h
+  split at h
+  · split at h
+    · rename_i t' c' ht _
+      simp only [Option.some.injEq, Prod.mk.injEq] at h
+      obtain ⟨_, h2, _, _⟩ := h
+      subst h2
+      exact specField16_lt _ _ _ ht
+    · cases h
+  · cases h
+
+/-- the answer and authority records of a body built from a log of typed calls are typed -/
+theorem bodyOf_typed : ∀ (log : List Ev) (b0 : Body), (∀ r ∈ b0.an ++ b0.ns, r.ty < 65536) →
+    (∀ e ∈ log, TyEv e) → ∀ r ∈ (bodyOf b0 log).an ++ (bodyOf b0 log).ns, r.ty < 65536 := by
+  intro log
+  induction log with
+  | nil => intro b0 h0 _; exact h0
+  | cons e rest ih =>
+    intro b0 h0 hl
+    have e1 : bodyOf b0 (e :: rest) = bodyOf (evBody b0 e) rest := rfl
+    rw [e1]
+    refine ih _ ?_ (fun x hx => hl x (List.mem_cons_of_mem _ hx))
+    have he := hl e List.mem_cons_self
+    cases e with
+    | add a =>
+      have hta := he a rfl
+      simp only [evBody]
+      split
+      · have hrec : ∀ r ∈ evRecs a, r.ty < 65536 := by
+          intro r hr
+          unfold evRecs at hr
+          rw [List.mem_map] at hr
+          obtain ⟨rd, _, rfl⟩ := hr
+          exact hta
+        intro r hr
+        cases hs : a.sec <;> simp only [hs, Body.add, List.mem_append] at hr
+        · rcases hr with (hr | hr) | hr
+          · exact h0 r (List.mem_append_left _ hr)
+          · exact hrec r hr
+          · exact h0 r (List.mem_append_right _ hr)
+        · rcases hr with hr | hr | hr
+          · exact h0 r (List.mem_append_left _ hr)
+          · exact h0 r (List.mem_append_right _ hr)
+          · exact hrec r hr
+        · rcases hr with hr | hr
+          · exact h0 r (List.mem_append_left _ hr)
+          · exact h0 r (List.mem_append_right _ hr)
+      · exact h0
+    | clear => intro r hr; simp [evBody] at hr
+    | aa x => exact h0
+    | rcode x => exact h0
+    | tc x => exact h0
+    | bad => exact h0
+
 theorem sameMultiset_self (l : List RrKey) : sameMultiset l l = true := by
   simp [sameMultiset, subMultiset]
 
@@ -183,12 +262,14 @@ theorem all2_nil_left {α β : Type} {R : α → β → Prop} (l : List β) (h :
   cases h; rfl
 
 /-- **the comparison clause of "answered normally", for an authenticated request that a loaded zone
-    answers** — modulo `ScratchIndepI` and `DecodeCongr`.  `b` is the signed response, `pb` the response
+    answers** — modulo `ScratchIndepI` and `DecodeCongrTy` (the latter proved by the writer side), for
+    zones whose RRsets have 16-bit TYPEs.  `b` is the signed response, `pb` the response
     to the request without its TSIG record; neither decoding has TC; the plain response leaves room for
     the TSIG record; a plain SERVFAIL is a signed SERVFAIL.  Then both show the same RCODE and AA, the
     same answer and authority records, and the same additional records apart from OPT / TSIG. -/
-theorem compare_core (hSI : ScratchIndepI) (hDC : DecodeCongr)
-    (cfg : Cfg) (hcfg : CfgWF cfg) (cat : List ZoneCfg) (tr : Transport) (now : Nat) (req : Bytes)
+theorem compare_core (hSI : ScratchIndepI) (hDC : DecodeCongrTy)
+    (cfg : Cfg) (hcfg : CfgWF cfg)
+    (hzty : ∀ ze ∈ cfg.zones, NodeOK (fun r => r.rtype < 65536) ze.zone.root) (cat : List ZoneCfg) (tr : Transport) (now : Nat) (req : Bytes)
     (hbuf : minBuf tr cfg.payload ≤ 65535) (hpay : 512 ≤ cfg.payload) (hp16 : cfg.payload ≤ 65535)
     (hreq : req.size ≤ Rdata.USIZE_MAX)
     (hrM : (specScanWith (catKind cfg) cfg.payload req).respond = true)
@@ -361,7 +442,14 @@ theorem compare_core (hSI : ScratchIndepI) (hDC : DecodeCongr)
       rw [k2] at hGS hfS
       simp only at hGP hfP hGS hfS htyP
       rw [k3] at hGS
-      obtain ⟨r1, r2, r3⟩ := hDC ps'.w pt.w t0 _ _ _ _ b pb macS macP dm pd hGS hGP htyP k4 k5 hfS hfP hdm hpd
+      have htyped : ∀ r ∈ (bodyOf (qBody (some q)) pt.log).an ++ (bodyOf (qBody (some q)) pt.log).ns, r.ty < 65536 := by
+        obtain ⟨evs, hl1, hl2, _⟩ := LogsY.inner ze.zone (hzty ze (List.mem_of_getElem? hze)) qn q.qtype
+          (specQuestionAt_qtype_lt _ _ _ _ _ _ hsq) ⟨SS, []⟩
+        rw [hr] at hl1
+        simp only [List.nil_append] at hl1
+        rw [hl1]
+        exact bodyOf_typed evs _ (by rw [(qBody_norecs _).1, (qBody_norecs _).2.1]; intro r hr'; cases hr') hl2
+      obtain ⟨r1, r2, r3⟩ := hDC ps'.w pt.w t0 _ _ _ _ b pb macS macP dm pd hGS hGP htyP htyped k4 k5 hfS hfP hdm hpd
       rw [r1, r2, r3]
       exact ⟨sameMultiset_self _, sameMultiset_self _, by simp [subMultiset]⟩
     · have vP := view_handle_err ze.zone qn q.qtype tr SS x pt hr hnpP (by rw [← p3]; exact hptc)
